@@ -375,7 +375,8 @@ func subFilter(out string, seed uint64, tier string, arg string) {
 	for i := 0; i < nH; i++ {
 		n := 1 + rng.Intn(10)
 		var entries []regEntry
-		pool := []string{"e_a", "w_b", "n_c", "e_d", "w_e", "e_f", "e_g", "n_h", "e_aa", "w_a"}
+		// names are compared as they are spelled: lower case is a convention of the tree, not something registration enforces
+		pool := []string{"e_a", "w_b", "n_c", "e_d", "w_e", "e_f", "e_g", "n_h", "e_aa", "w_a", "e_Mixed", "E_A", "n_cAmel"}
 		for j := 0; j < n; j++ {
 			e := regEntry{kind: kinds[rng.Intn(len(kinds))], name: pool[rng.Intn(len(pool))], source: allSources[rng.Intn(8)]}
 			switch rng.Intn(40) {
